@@ -32,12 +32,13 @@ def softmax(z):
     return e / e.sum(1, keepdims=True)
 
 
-def _gemini(target, kw):
+def _gemini(target, kw, epsilon=None):
     import gemclus.gemini as G
     cls, ovo = target
+    extra = {} if epsilon is None else {"epsilon": epsilon}
     if cls == "MI":
-        return G.MI()
-    return getattr(G, cls)(ovo=ovo, **kw)
+        return G.MI(**extra)
+    return getattr(G, cls)(ovo=ovo, **kw, **extra)
 
 
 def _table(n, K, table, seed):
@@ -97,7 +98,8 @@ def _regions(g, P, A, dist, ovo):
 
 
 def grad_case(case):
-    target, dist, K, n, s, tag, table, seed = case
+    target, dist, K, n, s, tag, table, seed = case[:8]
+    epsilon = case[8] if len(case) > 8 else None      # non-default clipping precision: part of the columns is clipped
     cls, ovo = target
     X = aff.dataset(n, 2, seed, nonneg=aff.needs_nonneg(tag) if dist == "mmd" else False)
     if dist == "mmd":
@@ -106,11 +108,11 @@ def grad_case(case):
         kw, y, A = aff.metric_reference(tag, X, seed)
     else:
         kw, y, A = {}, None, None
-    g = _gemini(target, kw)
+    g = _gemini(target, kw, epsilon)
     Aff = g.compute_affinity(X, y)
     Z = s * _table(n, K, table, seed)
     P = softmax(Z)
-    where = dict(target=f"{cls}(ovo={ovo})", dist=dist, K=K, n=n, scale=s, affinity=tag)
+    where = dict(target=f"{cls}(ovo={ovo})", dist=dist, K=K, n=n, scale=s, affinity=tag, epsilon=epsilon)
     v = []
     with np.errstate(all="ignore"):
         s0, G = g(P.copy(), Aff, return_grad=True)
@@ -207,6 +209,11 @@ def explorers(tier, seed):
                     for t in range(ntab):
                         for tag in tags_full:
                             cases.append((target, dist, K, n, s, tag, ("gen", t), seed))
+        for (n, K) in [(3, 2), (4, 3), (5, 4)]:
+            for s_ in (1.0, 3.0, 10.0):
+                for eps_ in (0.05, 0.2):
+                    for t in range(2):
+                        cases.append((target, dist, K, n, s_, tags_full[0], ("gen", t), seed, eps_))
         for tag in tags_small:
             for (n, K) in [(3, 2), (4, 3)]:
                 for s in (1.0, 10.0):
